@@ -1,6 +1,7 @@
 package main
 
 import (
+	"syscall"
 	"bytes"
 	"context"
 	"crypto/sha256"
@@ -139,7 +140,10 @@ func traceCLI(o opts) error {
 	}
 	for _, val := range values {
 		for flags := 0; flags < 8; flags++ {
-			for _, src := range []string{"file", "pipe"} {
+			for _, src := range []string{"file", "pipe", "fifo"} {
+				if src == "fifo" && (caseNo+flags)%3 != 0 {
+					continue // --from-file on a named pipe (shell process substitution, /dev/stdin): every third case
+				}
 				if o.profile != "thorough" && (caseNo+flags)%2 == 1 && len(val) > 12 {
 					continue // quick: every other combination for the random tail
 				}
@@ -159,6 +163,20 @@ func traceCLI(o opts) error {
 				if src == "file" {
 					fp := filepath.Join(o.dir, "input.bin")
 					os.WriteFile(fp, val, 0600)
+					args = append(args, "--from-file", fp)
+				} else if src == "fifo" {
+					// a file that is not a regular file: its size says nothing about its contents
+					fp := filepath.Join(o.dir, "input.fifo")
+					os.Remove(fp)
+					if err := syscall.Mkfifo(fp, 0600); err != nil {
+						continue
+					}
+					go func(v []byte) {
+						if f, err := os.OpenFile(fp, os.O_WRONLY, 0); err == nil {
+							f.Write(v)
+							f.Close()
+						}
+					}(append([]byte(nil), val...))
 					args = append(args, "--from-file", fp)
 				} else {
 					cmd.Stdin = bytes.NewReader(val)
